@@ -14,7 +14,8 @@ FewFlagCfgs(B) == {Cfg(TRUE, TRUE, TRUE, TRUE, bins) : bins \in B} \cup {Cfg(TRU
 MC_Configs == CASE Which = "C01" -> IF Thorough THEN AllFlagCfgs({<<127>>, <<96, 127>>, <<63, 105, 127>>})
                                     ELSE FewFlagCfgs({<<63, 105, 127>>}) \cup {Cfg(FALSE, TRUE, FALSE, TRUE, <<127>>)}
                 [] Which = "C02" -> AllFlagCfgs(IF Thorough THEN {<<127>>, <<96, 127>>, <<63, 105, 127>>} ELSE {<<96, 127>>})
-                [] Which = "C19" -> {Cfg(TRUE, TRUE, TRUE, TRUE, <<96, 127>>), Cfg(TRUE, FALSE, FALSE, FALSE, <<96, 127>>)}
+                [] Which = "C19" -> {Cfg(TRUE, TRUE, TRUE, TRUE, <<96, 127>>), Cfg(TRUE, FALSE, FALSE, FALSE, <<96, 127>>),
+                                     [Cfg(TRUE, FALSE, TRUE, FALSE, <<96, 127>>) EXCEPT !.ppqn = 48]}
                 [] OTHER -> IF Thorough THEN FewFlagCfgs({<<96, 127>>})
                             ELSE {Cfg(TRUE, FALSE, FALSE, FALSE, <<96, 127>>)}
 
